@@ -10,8 +10,7 @@ dict entry points to; the statements hold for every state, reachable or not.
   addressed to it (or what it was); nothing else about the object changes;
 * every getter is total on every defined protocol value (no `KeyError`);
 * selected mode / fan speed report AUTO / INTELLIGENT_AUTO for the automatic variants, the active getters the
-  concrete HEAT / COOL and the concrete speed — the latter **fails** for one table entry
-  (`C10_active_fan_concrete_at5_refuted`);
+  concrete HEAT / COOL and the concrete speed (`C10_active_fan_concrete_at5`, for every protocol value);
 * set-point limits follow the current mode exactly as the code does (HEAT, COOL: that mode's limits; every other mode,
   including AUTO_HEAT / AUTO_COOL: the outer hull);
 * error details iff error code ≠ 0; quick-timer time iff the timer is not disabled.
@@ -168,23 +167,15 @@ example : ({ exAc with status := { exAc.status with mode := .AUTO_HEAT } } : AcO
 theorem C10_selected_fan_at5 (a : AcObj) : a.selectedFanSpeed = some (selectedFanSpec a.status.fan_speed) := by
   unfold AcObj.selectedFanSpeed; cases a.status.fan_speed <;> decide
 
-/-- the active fan speed is the concrete speed — for every protocol value except `INTELLIGENT_AUTO_TURBO` -/
-theorem C10_active_fan_concrete_at5_partial (a : AcObj) (h : a.status.fan_speed ≠ .INTELLIGENT_AUTO_TURBO) :
+/-- the active fan speed is the concrete speed in effect, for every protocol value (the table entry for
+`INTELLIGENT_AUTO_TURBO` was `INTELLIGENT_AUTO` on the pinned tree: found by the C10 check, repaired; this theorem
+replaces the earlier `…_partial` / `…_refuted` pair) -/
+theorem C10_active_fan_concrete_at5 (a : AcObj) :
     a.activeFanSpeed = some (concreteFanSpec a.status.fan_speed) := by
   unfold AcObj.activeFanSpeed
-  revert h
   cases a.status.fan_speed <;> decide
 
-/-- FINDING: `_AC_ACTIVE_FAN_SPEED_MAPPING[AcFanSpeed.INTELLIGENT_AUTO_TURBO]` is `INTELLIGENT_AUTO`, not `TURBO`:
-the full statement `∀ a, a.activeFanSpeed = some (concreteFanSpec a.status.fan_speed)` is false -/
-theorem C10_active_fan_concrete_at5_refuted :
-    AC_ACTIVE_FAN_SPEED_MAPPING .INTELLIGENT_AUTO_TURBO = some .INTELLIGENT_AUTO ∧
-    concreteFanSpec .INTELLIGENT_AUTO_TURBO = .TURBO ∧
-    ¬ ∀ a : AcObj, a.activeFanSpeed = some (concreteFanSpec a.status.fan_speed) := by
-  refine ⟨by decide, rfl, ?_⟩
-  intro h
-  have := h { exAc with status := { exAc.status with fan_speed := .INTELLIGENT_AUTO_TURBO } }
-  revert this
+example : ({ exAc with status := { exAc.status with fan_speed := .INTELLIGENT_AUTO_TURBO } } : AcObj).activeFanSpeed = some .TURBO := by
   decide
 
 example : ({ exAc with status := { exAc.status with fan_speed := .INTELLIGENT_AUTO_HIGH } } : AcObj).activeFanSpeed = some .HIGH ∧
